@@ -271,9 +271,9 @@ def gen_world(wseed):
                 typo = l[0]
         archs[f"A{a}"] = {"layers": layers, "cfg": target, "typo_layer": typo}
     pumls = {}
-    for p in range(2):
+    for p in range(4):
         target = W.pick(rng, cfg_ids)
-        pu = W.gen_puml(rng, tree, predicted[target])
+        pu = W.gen_puml(rng, tree, predicted[target], p_ghost=0.45, p_alias=0.55)
         if pu:
             pumls[f"p{len(pumls)}"] = {"text": pu["text"], "base": pu["base"], "tags": True,
                                        "components": pu["components"], "cfg": target}
@@ -465,7 +465,7 @@ def chain_undef(ctx, client):
             shape = (W.pick(rng, ["are_named", "are_sub_modules_of"]), "should_not",
                      W.pick(rng, list(RULE_ANY)), None)
         new, calls, ev = module_chain(ctx, ctx.obj("M", client), shape, rng.choice([0.3, 0.6]))
-    elif r < 0.85:
+    elif r < 0.78:
         built = layer_chain(ctx, ctx.obj("L", client), W.pick(rng, LAYER_SHAPES),
                             prefer_typo=rng.random() < 0.7, p_unknown_layer=0.1)
         if built is None:
